@@ -73,10 +73,6 @@ func fmtSprintf(args ...tengo.Object) (ret tengo.Object, err error) {
 			Found:    args[0].TypeName(),
 		}
 	}
-	if numArgs == 1 {
-		// okay to return 'format' directly as String is immutable
-		return format, nil
-	}
 	s, err := tengo.Format(format.Value, args[1:]...)
 	if err != nil {
 		return nil, err
